@@ -45,13 +45,10 @@ class DocstringParser(AbstractDocstringParser):
     def get_class_documentation(self, class_node: nodes.ClassDef) -> ClassDocstring:
         griffe_node = self._get_griffe_node(class_node.fullname)
 
-        if griffe_node is None:  # pragma: no cover
-            raise TypeError(f"Expected a griffe node for {class_node.fullname}, got None.")
-
         description = ""
         docstring = ""
         examples = []
-        if griffe_node.docstring is not None:
+        if griffe_node is not None and griffe_node.docstring is not None:
             docstring = griffe_node.docstring.value.strip("\n")
 
             for docstring_section in griffe_node.docstring.parsed:
@@ -400,11 +397,14 @@ class DocstringParser(AbstractDocstringParser):
             elif griffe_node.is_class:
                 # A member without source text, e.g. "__init__" or the comparison methods a dataclass generates
                 return None
-            else:  # pragma: no cover
-                raise ValueError(
-                    f"Something went wrong while searching for the docstring for {qname}. Please make sure"
-                    " that all directories with python files have an __init__.py file.",
+            else:
+                # The docstring library silently leaves out modules it cannot read (UTF-8 byte order mark, source
+                # encodings other than UTF-8) and directories without __init__.py file: no docstring is available then
+                logging.warning(
+                    f"Could not find the docstring for {qname}. Please make sure that all directories with python "
+                    "files have an __init__.py file and that the files are encoded in UTF-8 without byte order mark.",
                 )
+                return None
 
         return griffe_node
 
